@@ -35,7 +35,7 @@ void ezc3d::ParametersNS::GroupNS::Group::write(std::fstream &f, int groupIdx, s
     // a name of length 0 would be read as the end of the parameter section
     if (name().size() == 0){
         for (size_t i=0; i < nbParameters(); ++i)
-            parameter(i).write(f, -groupIdx, dataStartPosition);
+            parameter(i).write(f, -groupIdx, dataStartPosition, false);
         return;
     }
 
@@ -70,8 +70,10 @@ void ezc3d::ParametersNS::GroupNS::Group::write(std::fstream &f, int groupIdx, s
     f.write(reinterpret_cast<const char*>(&nCharToNext), 2*ezc3d::DATA_TYPE::BYTE);
     f.seekg(actualPos);
 
+    // DATA_START holds the block of the data in the POINT group only, elsewhere it is an ordinary parameter
+    bool isPointGroup(!name().compare("POINT"));
     for (size_t i=0; i < nbParameters(); ++i)
-        parameter(i).write(f, -groupIdx, dataStartPosition);
+        parameter(i).write(f, -groupIdx, dataStartPosition, isPointGroup);
 
 }
 
